@@ -8,6 +8,7 @@ import (
 	"os/exec"
 	"path/filepath"
 	"regexp"
+	"runtime/pprof"
 	"sort"
 	"strconv"
 	"strings"
@@ -59,6 +60,12 @@ func WorkerMain(args []string) int {
 	defer out.Close()
 	enc := json.NewEncoder(out)
 	cases := e.Cases(tier, seed)
+	if pf := os.Getenv("VERIF_CPUPROFILE"); pf != "" {
+		if f, err := os.Create(fmt.Sprintf("%s.%d", pf, shard)); err == nil {
+			_ = pprof.StartCPUProfile(f)
+			defer pprof.StopCPUProfile()
+		}
+	}
 	for i := start; i < len(cases); i++ {
 		if only >= 0 {
 			if i != only {
@@ -219,6 +226,9 @@ type evidence struct {
 // CheckMain is the supervisor: bin/check <ID> quick|thorough.
 func CheckMain(id, tier string, only int) int {
 	t0 := time.Now()
+	if s := os.Getenv("VERIF_ONLY"); s != "" && only < 0 {
+		only, _ = strconv.Atoi(s)
+	}
 	e := Lookup(id)
 	if e == nil {
 		fmt.Fprintln(os.Stderr, "unknown property", id)
